@@ -181,7 +181,7 @@ def call_of(rec: dict):
     raise KeyError(k)
 
 
-def replay_behaviour(tid, inst, beh):
+def replay_behaviour(tid, inst, beh, probe_level=None):
     """re-execute one emitted behaviour on the real code -> a hand record for TraceHands (+ whether the code followed it)"""
     from . import twins, play, pk
     c = inst['cfgs'][beh['cid'] - 1]['cfg']
@@ -198,7 +198,12 @@ def replay_behaviour(tid, inst, beh):
             followed = False
             break
         op, a = call_of(r)
-        ev = play.step(st, op, a, spec['werr'], ())
+        probes, psame = ((), True)
+        if probe_level is not None:
+            # every question of the candidate universe at this state of the exhaustive instance: guards must agree
+            from . import walk
+            probes, psame = play.probes(st, walk.probe_universe(st, random.Random(j), probe_level), spec['werr'])
+        ev = play.step(st, op, a, spec['werr'], probes, psame=psame)
         rec['steps'].append(ev)
         if ev['out'] != 'ok':
             followed = False
@@ -220,7 +225,7 @@ MC_FOR = {
 OWN = {
     'C01': ['Inv_C01_', 'Prop_C01_'], 'C02': ['Inv_C02_'], 'C03': ['Inv_C03_'], 'C06': ['Inv_C06_'],
     'C07': ['Inv_C07_', 'Prop_C07_', 'OnlyKnownFaults'], 'C08': ['Inv_C08_'], 'C09': ['OnlyKnownFaults'], 'C10': ['Inv_C10_'],
-    'C12': [], 'C13': ['Inv_C13_'], 'C14': ['Inv_C14_'], 'C15': ['Inv_C15_'],
+    'C12': ['Inv_C12_'], 'C13': ['Inv_C13_'], 'C14': ['Inv_C14_'], 'C15': ['Inv_C15_'],
 }
 
 
@@ -248,7 +253,7 @@ def mc_part(run: Run, prop: str, replay_max=None):
         sample = ok if len(ok) <= replay_max else rng.sample(ok, replay_max)
         recs, lost = [], 0
         for j, b in enumerate(sample):
-            rec, followed = replay_behaviour(j + 1, inst, b)
+            rec, followed = replay_behaviour(j + 1, inst, b, probe_level=1 if prop in ('C03', 'C07', 'C08', 'C10', 'C14') else None)
             T.mechanisms(run, rec)
             recs.append(rec)
             if not followed:
